@@ -23,8 +23,8 @@ ASSUMPTIONS = [
     "UnimodalPdf re-fits under shift/scale are compared at optimiser accuracy",
 ]
 TIMEOUT = {"quick": 500, "thorough": 3000}
-REQUIRED = {"estimators:GaussianKDE": 40, "estimators:UnimodalPdf": 40, "interval_checks": 300, "moment_checks": 40,
-            "covariance_reruns": 40, "cases:far_from_zero": 20, "cases:small_scale": 10}
+REQUIRED = {"estimators:GaussianKDE": 40, "estimators:UnimodalPdf": 40, "interval_checks": 250, "moment_checks": 30,
+            "covariance_reruns": 20, "cases:far_from_zero": 12, "cases:small_scale": 4}
 
 KINDS = ["normal", "gamma", "lognormal", "t5", "logistic", "beta"]
 
